@@ -1,6 +1,7 @@
 import CfdpVerif.Model.Tracker
 import CfdpVerif.Model.Checksum
 import CfdpVerif.Model.Util
+import CfdpVerif.DriverWorld
 /-!
 Line-protocol driver of the executable model.  One output line per input line.
 Every component has its own prefix; the Python harness (`harness/`) sends the same lines to the
@@ -15,6 +16,7 @@ def showSegs (t : Tracker.T) : String :=
 
 structure St where
   trk : Tracker.T := []
+  world : DriverWorld.DSt := {}
 
 /-- tracker ops: `T new | T add a b | T rm a b | T co | T reset` -/
 def stepTracker (s : St) (args : List String) : St × String :=
@@ -66,6 +68,9 @@ def step (s : St) (line : String) : St × String :=
   match (line.trimAscii.toString.splitOn " ").filter (· ≠ "") with
   | "T" :: rest => stepTracker s rest
   | "K" :: rest => (s, stepChecksum rest)
+  | "W" :: rest =>
+    let (d, o) := DriverWorld.stepLine s.world rest
+    ({ s with world := d }, o)
   | [] => (s, "")
   | _ => (s, "bad-op")
 
